@@ -67,7 +67,4 @@ def chain (s : Strategy) : Nat → List Int → Option (List Int)
         else (chain s f (insertSortedUnique rest r)).map (fun c => plus (product c cq) r)
 end
 
-#eval chain .dichotomic 100 [87]
-#eval chain .binary 100 [3,5,5,19]
-#eval chain .total 200 [23]
 end P
